@@ -1984,7 +1984,10 @@ dnsname_to_labels(u8 *const buf, size_t buf_len, off_t j,
 	/* the labels must be terminated by a 0. */
 	/* It's possible that the name ended in a . */
 	/* in which case the zero is already there */
-	if (!j || buf[j-1]) buf[j++] = 0;
+	if (!j || buf[j-1]) {
+		if ((size_t)j >= buf_len) return -2;
+		buf[j++] = 0;
+	}
 	return j;
  overflow:
 	return (-2);
